@@ -3,5 +3,8 @@
 //! Every area has one binary under `src/bin/`; they share argument parsing, NDJSON I/O, the
 //! seeded RNG, the time/decimal conventions and the standard instrument "world".
 pub mod cmp;
+pub mod engine_gen;
+pub mod engine_kit;
 pub mod util;
 pub mod world;
+pub mod world2;
